@@ -36,7 +36,6 @@ package pipeline
 //@ spec ctlBefore(a metadata.ControllerMeta, b metadata.ControllerMeta) bool = a.Struct.PkgPath < b.Struct.PkgPath || (a.Struct.PkgPath == b.Struct.PkgPath && !(b.Struct.Name < a.Struct.Name))
 //@ extern slices.Clone
 //@ ensures? fresh(result) && len(result) == len(s)
-//@ extern github.com/gopher-fleece/gleece/v2/core/metadata.ControllerMeta.Reduce havocs
 //@ func GleecePipeline.reduceControllers props C13,C14 havocs
 // (stated for the moment the loop is entered - i.e. an assertion on what the sort established; the reductions
 // themselves may change any heap)
